@@ -475,7 +475,14 @@ def render_module(proj, i, deps, style, weights):
     terms = [str(weights[i])]
     for k, d in enumerate(deps):
         path = "%s/%s" % (proj, modname(d))
-        if style == "alias" or deps.count(d) > 1 or (style == "mixed" and (i + d + k) % 2 == 0):
+        first = d not in deps[:k]
+        if style == "same":                       # identical statement repeated (legal only as far as the import graph goes:
+            aliased = False                       # the type checker then reports a duplicate alias — used for cyclic projects)
+        elif style == "plain+alias":              # same path: first plain, every repetition under a fresh alias
+            aliased = not first
+        else:
+            aliased = style == "alias" or deps.count(d) > 1 or (style == "mixed" and (i + d + k) % 2 == 0)
+        if aliased:
             al = "x%d_%d" % (d, k)
             lines.append('import "%s" as %s;' % (path, al))
         else:
@@ -595,13 +602,47 @@ def adj_of(edges, rng=None):
         for u in adj: rng.shuffle(adj[u])
     return adj
 
+def insert_repeats(adj, rng, prob=1.0):
+    """import lists are lists with repetition: repeat one import of a module at ANY position (first, middle, last)"""
+    for u in list(adj):
+        if adj[u] and rng.random() < prob:
+            for _ in range(rng.choice([1, 1, 2])):
+                adj[u].insert(rng.randint(0, len(adj[u])), rng.choice(adj[u]))
+    return adj
+
+def sweep_lists(L):
+    """every way of repeating one element of L once at any position, plus a triple occurrence"""
+    out = []
+    for t in dedupe(L):
+        for pos in range(len(L) + 1):
+            c = L[:pos] + [t] + L[pos:]
+            if c not in out: out.append(c)
+    out.append([L[0], L[0]] + L)
+    return out
+
+def repeat_sweep_projects(work):
+    """Repeated imports at every position of an import list, under two aliases / plain + alias / identical statements,
+    where an import written AFTER the repetition is (a) the only route to a module of a DAG, (b) the edge closing a cycle."""
+    bases = [("dag-fan3", 4, {0: [1, 2, 3]}, 0), ("dag-diamond", 4, {0: [1, 2], 1: [3], 2: [3]}, 0),
+             ("dag-inner", 4, {0: [1], 1: [2, 3]}, 1), ("dag-chain-side", 4, {0: [1, 3], 1: [2]}, 0),
+             ("cyc-close-last", 3, {0: [1], 1: [2, 0]}, 1), ("cyc-close-first", 3, {0: [1], 1: [0, 2]}, 1),
+             ("cyc-via-entry", 3, {0: [1, 2], 2: [0]}, 0), ("cyc-deep", 4, {0: [1], 1: [2, 3], 3: [1]}, 1),
+             ("cyc-self-after", 3, {0: [1, 2], 2: [2]}, 0)]
+    ps = []
+    for tag, n, adj, u in bases:
+        cyc = tag.startswith("cyc")
+        for L in sweep_lists(adj[u]):
+            for style in (["alias", "plain+alias", "same"] if cyc else ["alias", "plain+alias"]):
+                a = {k: list(v) for k, v in adj.items()}; a[u] = L
+                ps.append(("repeat-sweep/" + tag, make_project(work, "rs%d" % len(ps), n, a, style)))
+    return ps
+
 def family_projects(run, work, rng, count):
     ps = []
     def add(tag, n, edges, style="plain", dup=False):
         adj = adj_of(edges, rng)
         if dup:
-            for u in list(adj):
-                if rng.random() < 0.6: adj[u].append(rng.choice(adj[u]))
+            insert_repeats(adj, rng, 0.6)
         ps.append((tag, make_project(work, "fam%d" % len(ps), n, adj, style)))
     add("chain-8", 8, [(i, i + 1) for i in range(7)])
     add("diamond", 4, [(0, 1), (0, 2), (1, 3), (2, 3)], "mixed")
@@ -629,6 +670,11 @@ def tie_pipeline(run, work, rng, thorough):
     projs = []
     for mask, edges in all_digraphs(3):
         projs.append(("all-digraphs-3", make_project(work, "g3_%03d" % mask, 3, adj_of(edges, rng))))
+        if edges:
+            projs.append(("all-digraphs-3-with-repeats", make_project(work, "g3r_%03d" % mask, 3,
+                                                                      insert_repeats(adj_of(edges, rng), rng), rng.choice(["alias", "plain+alias"]))))
+    sweeps = repeat_sweep_projects(work)
+    projs += sweeps
     if thorough:
         sel = set(rng.sample(range(65536), 6000))
         for mask, edges in all_digraphs(4):
@@ -649,7 +695,10 @@ def tie_pipeline(run, work, rng, thorough):
     # native sample through the real CLI: sums, one .ssa per reachable module, nothing produced for cyclic projects
     dags = [(t, p) for (t, p) in projs if not p["cyclic"] and len(p["reach"]) >= 2]
     cycs = [(t, p) for (t, p) in projs if p["cyclic"]]
-    sample = [x for x in projs if x[0] not in ("all-digraphs-3", "digraphs-4-sample")]
+    sample = [x for x in projs if x[0] not in ("all-digraphs-3", "all-digraphs-3-with-repeats", "digraphs-4-sample") and not x[0].startswith("repeat-sweep/")]
+    sample += [x for k, x in enumerate(sweeps) if k % 9 == 0]
+    rep = [x for x in projs if x[0] == "all-digraphs-3-with-repeats" and not x[1]["cyclic"] and len(x[1]["reach"]) >= 2]
+    sample += rng.sample(rep, min(len(rep), 20 if thorough else 6))
     sample += rng.sample(dags, min(len(dags), 30 if thorough else 10)) + rng.sample(cycs, min(len(cycs), 16 if thorough else 6))
     def native(tp):
         tag, p = tp
